@@ -60,7 +60,11 @@ def step (d : DSt) (ws : List String) : DSt × String :=
   | ["cap", _idx, c, mw] => match fresh c mw with | some d' => (d', "") | none => (d, "bad-op")
   | ["cap", _idx, c, mw, ocap] =>
     -- the outbound queue's capacity is not part of the model: a full queue only delays the reader
-    if ocap.isNat then (match fresh c mw with | some d' => (d', "") | none => (d, "bad-op")) else (d, "bad-op")
+    -- (`p<k>`: the server runtime's blocking pool has k threads — when a handler gets a thread is not modelled either)
+    if ocap.isNat || (ocap.startsWith "p" && (ocap.drop 1).toString.isNat) then
+      (match fresh c mw with | some d' => (d', "") | none => (d, "bad-op")) else (d, "bad-op")
+  | ["starve", _idx, "begin"] => (d, "")  -- the admitted handler starts late (no free pool thread): same events
+  | ["starve", _idx, "end"] => (d, "")
   | ["hook", _idx, "begin"] => (d, "")    -- the exits that follow happen inside the refusal that follows: same events
   | ["hook", _idx, "end"] => (d, "")
   | ["race", _idx, rounds, extra] =>
